@@ -1162,9 +1162,9 @@ PIPELINE_ROUTE = {
                           "weights get a value-derived value_id (create_equivalence_id is an lru_cache) -- reachable only while "
                           "compiler_driver does not clear the process-wide caches between compilations (it does since cea8897); probed every run",
     "accelerator_ublock": None,
-    "ofm_scale": "one model in which three CONV_2D share the weight AND the bias tensor (the reader's per-operator clones keep value_id); "
-                 "equal input scales, another output scale",
-    "ifm_scale": "the same model: equal output scales, another input scale",
+    "ofm_scale": "one model in which two CONV_2D share the weight AND the bias tensor (the reader's per-operator clones keep value_id); "
+                 "equal input scales, different output scales",
+    "ifm_scale": "one model in which two CONV_2D share the weight and the bias tensor; equal output scales, different input scales",
     "scale_value_id": None,
 }
 
@@ -1186,7 +1186,8 @@ def witness_function_level(st):
 
 def pipeline_scenarios():
     return {"ifm_bitdepth": ["shared8_16", ["ethos-u55-128"]], "op_type_transpose_flip": ["conv_tconv", ["ethos-u55-128"]],
-            "accelerator_ncores": ["mean", ["ethos-u55-128", "ethos-u65-512"]], "ofm_scale": ["shared_wb", ["ethos-u55-128"]]}
+            "accelerator_ncores": ["mean", ["ethos-u55-128", "ethos-u65-512"]], "ofm_scale": ["shared_wb_ofm", ["ethos-u55-128"]],
+            "ifm_scale": ["shared_wb_ifm", ["ethos-u55-128"]]}
 
 
 def pipeline_main(scn, accels, out_dir):
@@ -1219,12 +1220,12 @@ def pipeline_main(scn, accels, out_dir):
             ot = net.tensor([4], "int32", None, None, [1, 16, 16, oc])
             net.op("TRANSPOSE_CONV", [ot, wt, x2, b2], [y2], dict(Padding=PADDING["SAME"], StrideW=2, StrideH=2), version=3)
         net.output(y1, y2)
-    elif scn == "shared_wb":
-        # three convolutions on the SAME constant weight and bias tensors: A (in 0.05, out 0.1), B (in 0.05, out 0.2), C (in 0.025, out 0.1)
+    elif scn in ("shared_wb_ofm", "shared_wb_ifm"):
+        # two convolutions on the SAME constant weight and bias tensors, differing in the output scale only / the input scale only
         wt = net.tensor([oc, 3, 3, c], "int8", 0.01, 0, np.random.RandomState(3).randint(-127, 128, [oc, 3, 3, c]))
         b1 = net.tensor([oc], "int32", 0.0005, 0, np.arange(oc) * 7 - 20)
         ys = []
-        for si, so in ((0.05, 0.1), (0.05, 0.2), (0.025, 0.1)):
+        for si, so in ((0.05, 0.1), (0.05, 0.2) if scn == "shared_wb_ofm" else (0.025, 0.1)):
             x = net.input([1, 8, 8, c], "int8", si, 0)
             y = net.tensor([1, 8, 8, oc], "int8", so, 0)
             net.op("CONV_2D", [x, wt, b1], [y], o)
@@ -1311,7 +1312,7 @@ def pipeline_level(st):
             return field, (json.loads(line[-1]) if line else dict(error=(p.stderr or p.stdout)[-1500:]))
         except Exception as ex:
             return field, dict(error=repr(ex))
-    with concurrent.futures.ThreadPoolExecutor(max_workers=3) as ex:
+    with concurrent.futures.ThreadPoolExecutor(max_workers=5) as ex:
         res = dict(ex.map(one, pipeline_scenarios().items()))
     st["evals"] += sum(len(r.get("events", [])) for r in res.values())
     return res
@@ -1559,15 +1560,10 @@ def run(tier):
     confirmed = []
     for f in WITNESS_FIELDS:
         w = wit.get(f, {})
-        p = pipe.get("ofm_scale" if f == "ifm_scale" else f)
+        p = pipe.get(f)
         reach = None
         if p and not p.get("error"):
             stale_events = [e for e in p["events"] if e.get("stale")]
-            if f in ("ofm_scale", "ifm_scale"):
-                # the model has operators differing in one scale each: attribute a stale call to the scale in which it differs
-                # from the call that encoded the tensor (the first miss)
-                first = next((e for e in p["events"] if not e["hit"]), None)
-                stale_events = [e for e in stale_events if first and e.get(f) != first.get(f)]
             if stale_events and p["stale_tensor_in_command_stream"]:
                 reach = dict(route=PIPELINE_ROUTE[f], exit_codes=p["exit_codes"], first_stale_call=stale_events[0],
                              stale_tensor_in_command_stream=p["stale_tensor_in_command_stream"][:3])
